@@ -1,0 +1,15 @@
+//go:build verif
+// +build verif
+
+package js_parser
+
+import (
+	"github.com/evanw/esbuild/internal/ast"
+	"github.com/evanw/esbuild/internal/js_ast"
+)
+
+// Thin wrapper (no logic) used by the verification harness in /verif (C08).
+
+func VerifScopeMemberLess(a ast.Ref, b ast.Ref) bool {
+	return scopeMemberArray{js_ast.ScopeMember{Ref: a}, js_ast.ScopeMember{Ref: b}}.Less(0, 1)
+}
